@@ -650,6 +650,51 @@ def hostOp (guarded : Bool) (next extra : Int) : Res Int :=
   (if guarded then nextRegister next else nextRegisterUnguarded next).bind fun r =>
     (ckU8 (r + extra)).bind fun _ => .ok r
 
+/-! ## `run_string_push`: padding to a minimum width (vm.rs) -/
+
+inductive Align where
+  | default (isNumber : Bool)
+  | left
+  | center
+  | right
+  deriving Repr, DecidableEq
+
+/-- the fill counts `(left, right)` of `run_string_push` for a rendered value with `graphemes`
+grapheme clusters (`bytes` UTF-8 bytes) and a minimum width: guard `len < min_width` on the GRAPHEME
+count, then `fill_chars = min_width - len` with the same `len`; centre: `fill / 2` left, the rest
+right. `byteLen = true` is the seeded variant that subtracts the byte length instead. -/
+def padFill (byteLen : Bool) (graphemes bytes minWidth : Int) (a : Align) : Res (Int × Int) :=
+  if graphemes < minWidth then
+    (ckUsize (minWidth - (if byteLen then bytes else graphemes))).bind fun fill =>
+      match a with
+      | .default true | .right => .ok (fill, 0)
+      | .default false | .left => .ok (0, fill)
+      | .center => (ckUsize (fill - fill / 2)).bind fun r => .ok (fill / 2, r)
+  else .ok (0, 0)
+
+/-! ## `unpack_packed_arguments` (vm.rs): the u8 argument count while `xs...` arguments are spliced in -/
+
+/-- one packed argument that yields `len` values: the limit is computed from the CURRENT count
+(`(u8::MAX - arg_count - 1)`), more values are a runtime error; then `arg_count -= 1` and
+`arg_count += len as u8`. `staleMax = some m` is the seeded variant with the limit hoisted out of
+the loop. -/
+def unpackOne (staleMax : Option Int) (argCount len : Int) : Res Int :=
+  (match staleMax with
+    | some m => Res.ok m
+    | none => (ckU8 (255 - argCount)).bind fun a => ckU8 (a - 1)).bind fun maxArgs =>
+    if len > maxArgs then .err
+    else (ckU8 (argCount - 1)).bind fun c => ckU8 (c + castU8 len)
+
+/-- all packed arguments in order (`stale`: limit computed once, before the loop) -/
+def unpackArgsFrom (staleMax : Option Int) : Int → List Int → Res Int
+  | argCount, [] => .ok argCount
+  | argCount, len :: rest => (unpackOne staleMax argCount len).bind fun c => unpackArgsFrom staleMax c rest
+
+def unpackArgs (stale : Bool) (argCount : Int) (lens : List Int) : Res Int :=
+  if stale then
+    (ckU8 (255 - argCount)).bind fun a => (ckU8 (a - 1)).bind fun m => unpackArgsFrom (some m) argCount lens
+  else unpackArgsFrom none argCount lens
+
 /-! ## compiler `Frame` (crates/bytecode/src/frame.rs), `u8` arithmetic -/
 
 /-- `Frame::new`: `1 + local_count + captures.len() as u8 + placeholders as u8` -/
